@@ -377,6 +377,19 @@ def packet_write(text):
     out['counts'] = list(m.groups())
     return out
 
+# ------------------------------------------------------------------ rdata/macros.rs: the arms of RData::type_code / into_owned
+def rdata_enum_arms(text):
+    W = 'rdata/macros.rs: RData::type_code / RData::into_owned'
+    tc = fn_body(text, 'type_code', W, r'&self\)')
+    m = re.match(r'match self\{\$\(RData::\$i\(_\)=>TYPE::\$i,\)\+RData::NULL\((\w+),_\)=>TYPE::from\(\*(\w+)\),RData::Empty\((\w+)\)=>\*(\w+),?\}$', tc)
+    if not m or m.group(1) != m.group(2) or m.group(3) != m.group(4): refuse(W, f"type_code: {tc[:200]}")
+    io = block_after(text, r"\bfn into_owned<'b>\(self\)->RData<'b>", W)
+    m = re.match(r'match self\{\$\(RData::\$i\((\w+)\)=>RData::\$i\((\w+)\.into_owned\(\)\),\)\+'
+                 r'RData::NULL\((\w+),(\w+)\)=>RData::NULL\((\w+),(\w+)\.into_owned\(\)\),RData::Empty\((\w+)\)=>RData::Empty\((\w+)\),?\}$', io)
+    if not m or m.group(1) != m.group(2) or m.group(3) != m.group(5) or m.group(4) != m.group(6) or m.group(7) != m.group(8):
+        refuse(W, f"into_owned: {io[:240]}")
+    return {'typeCode': ['variant-constant', 'from-carried-code', 'carried-type'], 'intoOwned': ['same-variant-owned', 'same-code-owned-data', 'same-type']}
+
 # ------------------------------------------------------------------ packet.rs: MessageWriter (positions relative to the message)
 def message_writer(text):
     W = 'packet.rs: impl Write / Seek for MessageWriter'
@@ -552,6 +565,7 @@ def generate(repo):
     pp = attempt('packet.parse', need('p', packet_parse))
     pw = attempt('packet.write', need('p', packet_write))
     mw = attempt('packet.message_writer', need('p', message_writer))
+    ea = attempt('rdata.enum_arms', need('m', rdata_enum_arms))
     ex = attempt('mdns.expiration', need('mdns', expiration))
     owned = []
     dns = os.path.join(repo, 'simple-dns/src/dns')
@@ -648,6 +662,9 @@ def generate(repo):
           "/-- `MessageWriter` (the writer `write_compressed_to` wraps its output in): `write` and `flush` forward to the inner writer,",
           "`seek(Start(o))` goes to start + o and every seek answers relative to start -/",
           "def messageWriter : Option (List String) := " + ('none' if mw is None else f"some {strs(mw)}"),
+          "/-- `RData::type_code` and `RData::into_owned` (macro `rdata_enum!`): the typed variants, `NULL(code, data)`, `Empty(type)` -/",
+          "def rdataTypeCodeArms : Option (List String) := " + ('none' if ea is None else f"some {strs(ea['typeCode'])}"),
+          "def rdataIntoOwnedArms : Option (List String) := " + ('none' if ea is None else f"some {strs(ea['intoOwned'])}"),
           "", "/-- simple-mdns `ExpirationInfo::new`: refresh after ttl / shortDiv below shortBelow seconds, else ttl / longDiv * longMul -/",
           f"def expShortBelow : Option Nat := {optn(g(ex, 'shortBelow'))}",
           f"def expShortDiv : Option Nat := {optn(g(ex, 'shortDiv'))}",
